@@ -103,10 +103,13 @@ impl Synchronizer {
                 // Handle consensus' messages.
                 Some(message) = self.rx_message.recv() => match message {
                     ConsensusMempoolMessage::Synchronize(digests, target) => {
+                        #[cfg(not(hotstuff_verif))]
                         let now = SystemTime::now()
                             .duration_since(UNIX_EPOCH)
                             .expect("Failed to measure time")
                             .as_millis();
+                        #[cfg(hotstuff_verif)]
+                        let now = network::simnet::now_millis();
 
                         let mut missing = Vec::new();
                         for digest in digests {
@@ -176,10 +179,13 @@ impl Synchronizer {
                     // We optimistically sent sync requests to a single node. If this timer triggers,
                     // it means we were wrong to trust it. We are done waiting for a reply and we now
                     // broadcast the request to a bunch of other nodes (selected at random).
+                    #[cfg(not(hotstuff_verif))]
                     let now = SystemTime::now()
                         .duration_since(UNIX_EPOCH)
                         .expect("Failed to measure time")
                         .as_millis();
+                    #[cfg(hotstuff_verif)]
+                    let now = network::simnet::now_millis();
 
                     let mut retry = Vec::new();
                     for (digest, (_, _, timestamp)) in &self.pending {
